@@ -200,7 +200,7 @@ fn gen(seed: u64, family: &str, tier: Tier) -> Case {
         w.grades = vec![0.0; n - 1];
     }
     w.edge_oriented = pc.edge_rtree || (!pc.rtree && !family.starts_with("yens-known") && r.chance(0.25));
-    w.parallelism = r.range(1, 8) as usize;
+    w.parallelism = if r.chance(0.02) && !family.starts_with("yens-known") { 0 } else { r.range(1, 8) as usize };
     w.persist = true;
     w.out = None;
     if family == "disk-full" || (!family.starts_with("yens-known") && r.chance(0.25)) {
@@ -276,7 +276,8 @@ fn gen(seed: u64, family: &str, tier: Tier) -> Case {
         world: w,
         batches: vec![batch],
         workers: r.range(1, 6) as usize,
-        run_parallelism: if r.chance(0.2) { Some(r.range(1, 8) as usize) } else { None },
+        // (a parallelism of 0 is a configuration mistake: run() may refuse the batch, it must not panic or hang)
+        run_parallelism: if r.chance(0.03) { Some(0) } else if r.chance(0.2) { Some(r.range(1, 8) as usize) } else { None },
         simcfg,
         recorded: None,
         params: json!({"kinds": kinds}),
@@ -358,7 +359,17 @@ fn judge(case: &Case, obs: &Obs) -> (Vec<Violation>, BTreeMap<String, u64>, bool
         v.push(Violation { class: panic_class(p), detail: format!("panic: {} at {} (thread {:?}); batch {}", p.message, p.location, p.thread, serde_json::to_string(batch).unwrap().chars().take(500).collect::<String>()) });
     }
     let hard_fired: u64 = obs.stats.faults.iter().filter(|(k, _)| *k == "eio_write" || *k == "enospc_write" || *k == "zero_write").map(|(_, n)| *n).sum();
+    let zero_parallelism = case.run_parallelism == Some(0) || (case.run_parallelism.is_none() && case.world.parallelism == 0);
+    if zero_parallelism {
+        bump("parallelism_zero", 1);
+    }
     let run = match obs.runs.get(0) {
+        Some(Some(Ok(r))) if zero_parallelism => {
+            // whatever it answers with, it returned
+            let _ = r;
+            return (v, reach, true);
+        }
+        Some(Some(Err(_))) if zero_parallelism => return (v, reach, true),
         Some(Some(Ok(r))) => r.clone(),
         Some(Some(Err(_))) if hard_fired > 0 => {
             // the response file could not be written: failing is the right answer, and it did return
